@@ -399,6 +399,28 @@ func init() {
 		}
 		return c.opaqueString("itoa")
 	})
+	// ---- slices helpers that use unsafe pointer arithmetic ----
+	reg("slices.overlaps", func(c *Ctx, fn *ssa.Function, a []Value) Value {
+		x, y := a[0].(SliceV), a[1].(SliceV)
+		if x.len == 0 || y.len == 0 || x.isNil() || y.isNil() {
+			return c.tb.ff
+		}
+		if !samePtr(x.base, y.base) {
+			return c.tb.ff
+		}
+		return c.tb.Bool(x.off < y.off+y.len && y.off < x.off+x.len)
+	})
+	reg("slices.startIdx", func(c *Ctx, fn *ssa.Function, a []Value) Value {
+		haystack, needle := a[0].(SliceV), a[1].(SliceV)
+		if needle.isNil() || haystack.isNil() || !samePtr(haystack.base, needle.base) {
+			c.unsupported("slices.startIdx on unrelated slices")
+		}
+		i := needle.off - haystack.off
+		if i < 0 || i > haystack.cap {
+			c.unsupported("slices.startIdx: needle not in haystack")
+		}
+		return c.intConst(i)
+	})
 	// ---- runtime / misc ----
 	reg("runtime.Gosched runtime.GC runtime.KeepAlive", func(c *Ctx, fn *ssa.Function, a []Value) Value { return nil })
 	reg("(*go.uber.org/zap.Logger).Check", func(c *Ctx, fn *ssa.Function, a []Value) Value { return PtrV{} })
